@@ -8,6 +8,7 @@ COQ_PROP = "C11"
 FAMILIES = [(fam_sync, 150, 1500)]
 TECHNIQUE = "Coq proof (only target files are written; append keeps the old text as a prefix; the replace branch preserves every other position given the rewrite frame law) + replay correspondence + masked-tree oracle on the real sync"
 TRUSTED = P.TRUSTED
+WITNESS_REPLAY = False   # a scenario can fail for several reasons; findings are reported when observed in the run
 
 
 def oracle(rng, tier):
